@@ -55,7 +55,7 @@ type walker struct {
 
 func (w *walker) fail(n ast.Node, what string) {
 	if w.err == nil {
-		w.err = fmt.Errorf("c16 facts: unsupported %s at %s", what, w.fset.Position(n.Pos()))
+		w.err = fmt.Errorf("facts: unsupported %s at %s", what, w.fset.Position(n.Pos()))
 	}
 }
 
@@ -109,7 +109,7 @@ func (w *walker) stmt(st ast.Stmt) {
 				w.evs = append(w.evs, Ev{"define", t})
 			}
 		} else {
-			w.fail(x, "assignment operator")
+			w.evs = append(w.evs, Ev{"assign", nstr(w.fset, x)})
 		}
 	case *ast.DeferStmt:
 		for _, a := range x.Call.Args {
@@ -153,14 +153,47 @@ func (w *walker) stmt(st ast.Stmt) {
 		w.evs = append(w.evs, Ev{"for", "range " + nstr(w.fset, x.X)})
 		w.block(x.Body)
 		w.evs = append(w.evs, Ev{"endfor", ""})
+	case *ast.IncDecStmt:
+		w.evs = append(w.evs, Ev{"assign", nstr(w.fset, x)})
+	case *ast.LabeledStmt:
+		w.evs = append(w.evs, Ev{"label", x.Label.Name})
+		w.stmt(x.Stmt)
+	case *ast.BranchStmt:
+		w.evs = append(w.evs, Ev{"branch", nstr(w.fset, x)})
+	case *ast.ForStmt:
+		if x.Init != nil {
+			w.stmt(x.Init)
+		}
+		cond := ""
+		if x.Cond != nil {
+			w.expr(x.Cond)
+			cond = nstr(w.fset, x.Cond)
+		}
+		w.evs = append(w.evs, Ev{"for", cond})
+		w.block(x.Body)
+		if x.Post != nil {
+			w.stmt(x.Post)
+		}
+		w.evs = append(w.evs, Ev{"endfor", ""})
 	case *ast.DeclStmt:
-		// `var idle []*LazyBinaryReader`: no calls allowed inside
+		// declarations: no calls allowed inside
 		ast.Inspect(x, func(n ast.Node) bool {
 			if _, ok := n.(*ast.CallExpr); ok {
 				w.fail(n, "call in declaration")
 			}
 			return true
 		})
+		if gd, ok := x.Decl.(*ast.GenDecl); ok {
+			var names []string
+			for _, sp := range gd.Specs {
+				if vs, ok := sp.(*ast.ValueSpec); ok {
+					for _, n := range vs.Names {
+						names = append(names, n.Name)
+					}
+				}
+			}
+			w.evs = append(w.evs, Ev{"decl", gd.Tok.String() + " " + strings.Join(names, ",")})
+		}
 	default:
 		w.fail(st, fmt.Sprintf("statement %T", st))
 	}
